@@ -12,6 +12,12 @@ tie:   mutation sweep on the real code: values are written through Cache.setup('
        (b) the property itself: an altered blob with its digest label intact never yields a value and never reaches the
        unpickler unless the independent MAC check passes.
 
+Confusable texts: the MAC is computed over key.encode() and _to_bytes(secret); pairs of DIFFERENT key texts that some
+lossy conversion (error handlers ignore/replace/backslashreplace/..., normalisation, case folding, truncation) would map
+to the same bytes are written and each blob copied under the other key; groups of DIFFERENT secret texts that numeric
+parsing / str() rendering would identify are configured (settings url, str and bytes keywords) and each blob read under
+the others.  Configurations that cannot sign on the tree under test (probed) are listed, not judged.
+
 Known finding D25 (MAC over key||payload without a separator): reported as KNOWN-FINDING, exit 0; any other tampered
 blob that becomes a value is a VIOLATION.
 """
@@ -19,6 +25,7 @@ from __future__ import annotations
 
 import json
 import resource
+import unicodedata
 from pathlib import Path
 
 from .. import serial as S
@@ -39,6 +46,9 @@ TRUSTED = [
     "error_family assume nothing about the MAC",
     "the real pickler's behaviour on a verified payload is an input of the model (instrumented pickler), not modelled",
     "harness: instrumented pickler, stdlib hmac as the MAC oracle, mutation generator, canonical form of values",
+    "EncInjective (the conversions key text -> bytes and configured secret -> bytes are injective) is a hypothesis of the *_text "
+    "theorems; strict UTF-8 is injective (trusted, not proved in Lean); the harness probes the REAL conversions on generated pairs of "
+    "confusable keys / secret spellings (a copied blob that verifies is a collision), its own oracle encodes keys with strict UTF-8",
 ]
 
 
@@ -53,10 +63,13 @@ def split_blob(blob: bytes):
 def independently_verifies(blob: bytes, key: str, secret: bytes, digest: str, payload: bytes) -> bool:
     """the property's own notion of 'signature verified against the configured secret and the key being read',
     evaluated with the stdlib hmac: blob = [label:]mac(secret, key || payload) + '_' + payload"""
+    kb = S.key_bytes(key)
+    if kb is None:
+        return False            # a key text without an encoding: no MAC over key || payload exists
     for label in S.DIGESTS:
-        if blob == label.encode() + b":" + S.real_mac(label, secret, key.encode() + payload) + b"_" + payload:
+        if blob == label.encode() + b":" + S.real_mac(label, secret, kb + payload) + b"_" + payload:
             return True
-    return blob == S.real_mac(digest, secret, key.encode() + payload) + b"_" + payload
+    return blob == S.real_mac(digest, secret, kb + payload) + b"_" + payload
 
 
 # ----------------------------------------------------------------------------------------------------
@@ -217,23 +230,40 @@ def unsigned_mutations(rng, key: str, blob: bytes, thorough: bool):
 # ----------------------------------------------------------------------------------------------------
 # one scenario on the implementation
 # ----------------------------------------------------------------------------------------------------
-def run_scenario(conf: S.Conf, writes, rng, thorough, stride=1, attacks=None, structural=0):
+def run_scenario(conf: S.Conf, writes, rng, thorough, stride=1, attacks=None, structural=0, write_log=None):
     """writes: [(key, value)].  Returns (legit {key: blob}, attack records).  structural = number of blobs of the scenario
-    that additionally get the full-alphabet sweep at the structural positions."""
+    that additionally get the full-alphabet sweep at the structural positions.  attacks: None (generate), a list, or a
+    function of the legitimate blobs.  An attack's 4th component is the reader's secret text, or (secret text, via) for a
+    reader configured another way than the writer.  write_log (a list): one record per write incl. those that raised (a key
+    that has no UTF-8 encoding cannot be signed); without it a raising write is a harness error."""
 
     async def go():
-        wcache, _, _ = conf.setup()
+        wcache, _, wrec = conf.setup()
         legit = {}
         for k, v in writes:
-            await wcache.set(k, v)
-            legit[k] = await wcache.get_raw(k)
+            wrec.reset()
+            try:
+                await wcache.set(k, v)
+                res = True
+            except Exception as exc:  # noqa: BLE001
+                if write_log is None:
+                    raise
+                res = "raised:" + type(exc).__name__
+            raw = await wcache.get_raw(k)
+            if write_log is not None:
+                write_log.append({"conf": conf, "key": k, "value": v, "res": res, "raw": raw, "dumps": list(wrec.dumps_calls)})
+            if res is not True:
+                continue
+            legit[k] = raw
             if not isinstance(legit[k], bytes):
                 raise HarnessError(f"stored form of {v!r} is not bytes: nothing to corrupt")
         await wcache.set(NEIGHBOUR, "neighbour")
         nb_blob = await wcache.get_raw(NEIGHBOUR)
         readers = {}
         recs = []
-        if attacks is not None:
+        if callable(attacks):
+            todo = attacks(legit)
+        elif attacks is not None:
             todo = attacks
         elif conf.secret is None:
             todo = [a for k, b in legit.items() for a in unsigned_mutations(rng, k, b, thorough)]
@@ -242,12 +272,13 @@ def run_scenario(conf: S.Conf, writes, rng, thorough, stride=1, attacks=None, st
             for k, b in list(legit.items())[:structural]:
                 todo.extend(structural_mutations(k, b, conf.secret))
         for cls, rkey, blob2, rsec in todo:
-            if rsec == conf.secret and legit.get(rkey) == blob2:
+            rsec, rvia = rsec if isinstance(rsec, tuple) else (rsec, conf.via)
+            if (rsec, rvia) == (conf.secret, conf.via) and legit.get(rkey) == blob2:
                 continue  # not an alteration
-            if rsec not in readers:
-                rconf = S.Conf(conf.pickle_type, rsec, conf.digest, conf.via)
+            if (rsec, rvia) not in readers:
+                rconf = S.Conf(conf.pickle_type, rsec, conf.digest, rvia)
                 rc, rb, rr = rconf.setup()
-                if rsec == conf.secret:
+                if (rsec, rvia) == (conf.secret, conf.via):
                     await rc.set_raw(NEIGHBOUR, nb_blob)
                     # warm the reader: it has already read every legitimate entry successfully before it meets an
                     # attacked blob (a signer that remembers what it verified must not let that widen what it accepts)
@@ -256,13 +287,13 @@ def run_scenario(conf: S.Conf, writes, rng, thorough, stride=1, attacks=None, st
                         await S.read(rc.get(wk, default=S.SENT))
                         await S.read(rc.get_many(wk, NEIGHBOUR, default=S.SENT))
                         await rc.delete(wk)
-                readers[rsec] = (rconf, rc, rr)
-            rconf, rc, rr = readers[rsec]
+                readers[(rsec, rvia)] = (rconf, rc, rr)
+            rconf, rc, rr = readers[(rsec, rvia)]
             await rc.set_raw(rkey, blob2)
             rr.reset()
             o_get = await S.read(rc.get(rkey, default=S.SENT))
             calls = [(p, kind, res) for p, kind, res in rr.loads_calls]
-            rec = {"class": cls, "key": rkey, "blob": blob2, "secret": rsec, "get": o_get, "loads": calls}
+            rec = {"class": cls, "key": rkey, "blob": blob2, "secret": rsec, "via": rvia, "get": o_get, "loads": calls}
             # the other read paths
             rr.reset()
             rec["many"] = await S.read(rc.get_many(rkey, NEIGHBOUR, default=S.SENT))
@@ -297,14 +328,25 @@ def run_scenario(conf: S.Conf, writes, rng, thorough, stride=1, attacks=None, st
 # ----------------------------------------------------------------------------------------------------
 # model + oracles
 # ----------------------------------------------------------------------------------------------------
+# attack classes that are NOT alterations in the property's sense: the same secret configured another way
+MIRROR_ONLY = ("label", "digits", "same_secret_other_type", "reader_secret_unusable")
+
+
 def judge(conf: S.Conf, legit: dict, recs, ids: S.Ids, stats: dict, nb_payload: bytes = b""):
-    """returns list of (rec, kind, signature, text); kind in {'spec', 'model'}"""
+    """returns list of (rec, kind, signature, text); kind in {'spec', 'model'}.  A record may carry its own context
+    r["ctx"] = (writer configuration, legitimate blobs, neighbour payload): records of several scenarios are judged in one
+    batch of driver calls."""
     if not recs:
         return []
+    dflt_ctx = (conf, legit, nb_payload)
 
     def base(r):
-        rconf = S.Conf(conf.pickle_type, r["secret"], conf.digest, conf.via)
-        return f"{rconf.fields()} key={r['key'].encode().hex()} w=b:{r['blob'].hex()} same=0"
+        c = r.get("ctx", dflt_ctx)[0]
+        rconf = S.Conf(c.pickle_type, r["secret"], c.digest, r.get("via", c.via))
+        f = rconf.fields()
+        if r["class"] == "reader_secret_unusable":      # what reached HashSigner is not bytes after _to_bytes (probed)
+            f = "sec=o " + f.split(" ", 1)[1]
+        return f"{f} {S.key_field(r['key'])} w=b:{r['blob'].hex()} same=0"
 
     l1 = ["dec1 " + base(r) for r in recs]
     a1 = S.ask_par(DRIVER, l1)
@@ -320,9 +362,10 @@ def judge(conf: S.Conf, legit: dict, recs, ids: S.Ids, stats: dict, nb_payload: 
     l3 = [l.replace("dec2 ", "dec3 ", 1) + " loads=" + verdict(r) for l, r in zip(l2, recs)]
     a3 = S.ask_par(DRIVER, l3)
     out = []
-    label = conf.digest.encode() + b":"
     nb_val = ("value", "neighbour")
     for r, q, p2, p3, line in zip(recs, a1, a2, a3, l3):
+        conf, legit, nb_payload = r.get("ctx", dflt_ctx)
+        label = conf.digest.encode() + b":"
         for ans in (q, p2, p3):
             if ans == "bad-op":
                 raise HarnessError(f"driver could not parse: {line[:200]}")
@@ -331,13 +374,16 @@ def judge(conf: S.Conf, legit: dict, recs, ids: S.Ids, stats: dict, nb_payload: 
         pre = p2.split()[0][4:]
         res = p3.split()[0][4:]
         sec = (r["secret"] or "").encode()
-        same_reader = r["secret"] == conf.secret
+        same_reader = (r["secret"], r.get("via", conf.via)) == (conf.secret, conf.via)
+        key_ok = S.key_bytes(r["key"]) is not None
         # ---------------- (a) implementation vs model
         expect_calls = [bytes.fromhex(pre.split(":", 1)[1])] if pre.startswith("loads:") else []
         called = [p for p, _, _ in r["loads"]]
         if called != expect_calls:
             out.append((r, "model", None, f"unpickler calls on get: impl {called!r}, model {expect_calls!r} ({pre[:60]})"))
-        i_res = S.show_outcome(r["get"], ids)
+        i_res = S.show_outcome(r["get"], ids, r["key"])
+        if r["class"] == "reader_secret_unusable" and r["get"] == ("raised", "TypeError"):
+            i_res = "macerr:secret"
         if i_res != res:
             out.append((r, "model", None, f"get: impl {i_res[:100]} ({r['get'][1]!r}), model {res[:100]}"))
         # get_many / get_match agree with get (same decode, same key)
@@ -370,7 +416,7 @@ def judge(conf: S.Conf, legit: dict, recs, ids: S.Ids, stats: dict, nb_payload: 
                                 f"for key {r['key']!r}"))
         # (b2) an altered blob with the label intact never comes back as a value, only unsafe-data error or default
         in_scope = (r["secret"] is not None and conf.digest in S.KEYED and r["blob"].startswith(label)
-                    and r["class"] not in ("label", "digits"))
+                    and r["class"] not in MIRROR_ONLY)
         stats["attacks_" + r["class"]] = stats.get("attacks_" + r["class"], 0) + 1
         stats["decision_" + pre.split(":")[0]] = stats.get("decision_" + pre.split(":")[0], 0) + 1
         if in_scope:
@@ -384,7 +430,10 @@ def judge(conf: S.Conf, legit: dict, recs, ids: S.Ids, stats: dict, nb_payload: 
                     bad = any(v is not None for _, v in val)
                     shown = val
                 else:
-                    bad = kind in ("value", "raised")
+                    # a key text without an encoding (lone surrogate) makes `key.encode()` raise before anything is verified:
+                    # never a value; the UnicodeEncodeError is mirrored by the model (macError) and not held against the
+                    # error family, which is stated for keys that are text
+                    bad = kind == "value" or (kind == "raised" and not (val == "UnicodeEncodeError" and not key_ok))
                     shown = val
                 if not bad:
                     continue
@@ -403,13 +452,159 @@ def is_d25(r, legit: dict, conf: S.Conf) -> bool:
     if r["secret"] != conf.secret:
         return False
     h2, p2 = split_blob(r["blob"])
-    if h2 is None:
+    kb = S.key_bytes(r["key"])
+    if h2 is None or kb is None:
         return False
     for k0, b0 in legit.items():
         h0, p0 = split_blob(b0)
-        if h0 == h2 and k0 != r["key"] and r["key"].encode() + p2 == k0.encode() + p0:
+        k0b = S.key_bytes(k0)
+        if h0 == h2 and k0 != r["key"] and k0b is not None and kb + p2 == k0b + p0:
             return True
     return False
+
+
+# ----------------------------------------------------------------------------------------------------
+# keys and secrets that a lossy conversion would identify
+# ----------------------------------------------------------------------------------------------------
+# The MAC is computed over bytes: key.encode() and _to_bytes(secret).  "Copied under a different key" / "written with a
+# different secret" are statements about the caller's TEXTS, so both conversions must be injective (Props/C10.lean:
+# EncInjective; colliding_keys_accept_copy / colliding_secrets_accept show that this is necessary).  The real conversions
+# are probed on pairs of different texts that SOME plausible lossy conversion maps to the same bytes.
+def _sp(k: str) -> bytes:
+    return k.encode("utf-8", "surrogatepass")
+
+
+def _norm(form):
+    return lambda k: _sp(unicodedata.normalize(form, k))
+
+
+def _trunc(n):
+    # the first n bytes, cut back to a character boundary
+    return lambda k: _sp(k)[:n].decode("utf-8", "ignore").encode("utf-8")
+
+
+LOSSY = [(f"utf-8/{h}", (lambda h: lambda k: k.encode("utf-8", h))(h))
+         for h in ("ignore", "replace", "backslashreplace", "xmlcharrefreplace", "namereplace", "surrogateescape")]
+LOSSY += [(f"ascii/{h}", (lambda h: lambda k: k.encode("ascii", h))(h))
+          for h in ("ignore", "replace", "backslashreplace", "xmlcharrefreplace", "namereplace")]
+LOSSY += [(f"latin-1/{h}", (lambda h: lambda k: k.encode("latin-1", h))(h)) for h in ("ignore", "replace")]
+LOSSY += [(f, _norm(f)) for f in ("NFC", "NFD", "NFKC", "NFKD")]
+LOSSY += [("casefold", lambda k: _sp(k.casefold())), ("lower", lambda k: _sp(k.lower())), ("strip", lambda k: _sp(k.strip())),
+          ("utf-16 round trip", lambda k: _sp(k.encode("utf-16", "surrogatepass").decode("utf-16", "surrogatepass"))),
+          ("cut at NUL", lambda k: _sp(k.split("\x00")[0])), ("first 32 bytes", _trunc(32)), ("first 64 bytes", _trunc(64))]
+
+CONFUSABLE_BASE = ["name:\ud83d", "k\udc80", "k\udcc3\udca9", "\ud800", "caf\u00e9", "cafe\u0301", "\ufb01le", "k\U0001f600",
+                   "k\ud83d\ude00", "Key", "stra\u00dfe", "k ", " k", "k\x00x", "\u2126", "\u2460", "a\u00a0b", "\u0130",
+                   "user:" + "x" * 40 + ":1", "user:" + "\u00e9" * 40 + ":1", "k\ud83d", "k:\udfff_"]
+
+
+def confusable_key_pairs():
+    """[(key, other key, the lossy conversion that identifies them)]: different texts, both valid dict / redis keys"""
+    seen, out = set(), []
+    for k in CONFUSABLE_BASE:
+        for name, f in LOSSY:
+            try:
+                b = f(k)
+                k2 = b.decode("utf-8")
+                same = f(k2) == b
+            except (UnicodeError, ValueError):
+                continue
+            if k2 == k or not same or "*" in k2 or not k2 or (k, k2) in seen or (k2, k) in seen:
+                continue
+            seen.add((k, k2))
+            out.append((k, k2, name))
+    for a, b, _ in out:
+        ka, kb = S.key_bytes(a), S.key_bytes(b)
+        if ka is not None and ka == kb:
+            raise HarnessError(f"the harness' own key encoding (strict UTF-8) identifies {a!r} and {b!r}")
+    return out
+
+
+# spellings that the settings-url parser (int() / float() of numeric-looking text) or a str() rendering would identify,
+# and non-numeric controls.  Every member of a group is a DIFFERENT secret text.
+SECRET_GROUPS = [["0042", "042", "42", "42.0", "+42", " 42"], ["1e3", "1000.0", "1000.00", "1_000.0", "1000"],
+                 ["nan", "NaN", "-nan"], ["inf", "Infinity", "+inf"], ["\u0661\u0662\u0663", "123"], ["0", "00", "0.0", "-0"],
+                 ["s3cret", "S3CRET", "s3cret "], ["caf\u00e9", "cafe\u0301"], ["20240117", "20240118", "2024011.7e1"]]
+SECRET_VIAS = ("url", "kwstr", "kw")
+
+
+def swap_scenarios(chk: Check):
+    """[(origin, conf, writes, attacks(legit))] for the confusable keys and the secret spellings; probes: {description: verdict}"""
+    out, probes = [], {}
+    pairs = confusable_key_pairs()
+    keys = []
+    for a, b, _ in pairs:
+        for k in (a, b):
+            if k not in keys:
+                keys.append(k)
+    picklers = ["default", "json", None]
+    nconf = chk.budget(3, 9)
+    for i in range(nconf):
+        conf = S.Conf(picklers[(i + i // 3 + chk.seed) % 3], "s3cret", S.KEYED[i % 3], ["url", "kwstr", "kw"][(i // 3) % 3])
+        writes = [(k, (f"value #{j}" if j % 3 else f"bytes #{j}".encode())) for j, k in enumerate(keys)]
+
+        def attacks(legit, conf=conf):
+            todo = []
+            for a, b, why in pairs:
+                for src, dst in ((a, b), (b, a)):
+                    if src in legit:
+                        todo.append(("keyswap_confusable", dst, legit[src], conf.secret))
+            return todo
+
+        out.append((f"keys:{conf.name()}", conf, writes, attacks))
+    for gi, group in enumerate(SECRET_GROUPS):
+        digest = S.KEYED[(gi + chk.seed) % 3]
+        pt = ["default", "json", None][(gi + chk.seed) % 3] if chk.thorough or gi % 2 else "default"
+        for via in ("url", "kwstr"):
+            usable = {}
+            for sec in group:
+                for v2 in SECRET_VIAS:
+                    c = S.Conf(pt, sec, digest, v2)
+                    usable[(sec, v2)] = c.probe()
+                    if v2 == "url" or usable[(sec, v2)] != "signed":
+                        probes[f"{v2}:secret={sec!r}"] = usable[(sec, v2)]
+            for sec in group:
+                if usable[(sec, via)] != "signed":
+                    continue
+                conf = S.Conf(pt, sec, digest, via)
+
+                def attacks(legit, group=group, sec=sec, via=via, usable=usable):
+                    todo = []
+                    for other in group:
+                        for rv in ("url", "kwstr"):
+                            if other != sec and usable[(other, rv)] == "signed":
+                                todo.append(("secretswap_spelling", "k", legit["k"], (other, rv)))
+                            elif other != sec and usable[(other, rv)].startswith("raises"):
+                                todo.append(("reader_secret_unusable", "k", legit["k"], (other, rv)))
+                    for v2 in SECRET_VIAS:
+                        if v2 != via and usable[(sec, v2)] == "signed":
+                            todo.append(("same_secret_other_type", "k", legit["k"], (sec, v2)))
+                    return todo
+
+                out.append((f"secrets:{gi}:{via}:{sec!r}", conf, [("k", f"written under secret {sec!r}")], attacks))
+    return out, probes, pairs
+
+
+def check_writes(write_log, ids: S.Ids):
+    """stored forms of the swap scenarios' writes vs the model (a key without an encoding cannot be signed: stored=err)"""
+    if not write_log:
+        return []
+    def line(w):
+        d = "dumps=" + S.show_val(w["dumps"][-1][1], ids) if w["dumps"] else "dumps=-"
+        return f"{w['conf'].fields()} {S.key_field(w['key'])} v={S.show_val(w['value'], ids)} {d}"
+    l1 = ["enc1 " + line(w) for w in write_log]
+    a1 = S.ask_par(DRIVER, l1)
+    l2 = ["enc2 " + line(w) + " " + S.mac_field(a, w["conf"].secret) for w, a in zip(write_log, a1)]
+    a2 = S.ask_par(DRIVER, l2)
+    out = []
+    for w, ans, ln in zip(write_log, a2, l2):
+        if ans == "bad-op" or "miss=1" in ans:
+            raise HarnessError(f"driver could not answer a write of a swap scenario: {ln[:200]} -> {ans}")
+        impl = "stored=" + (S.show_val(w["raw"], ids) if w["res"] is True else "err")
+        if ans.split()[0] != impl:
+            out.append((w, f"write of {w['value']!r} under key {w['key']!r} ({w['conf'].name()}): impl {impl[:100]} "
+                           f"({w['res']}), model {ans.split()[0][:100]}"))
+    return out
 
 
 # ----------------------------------------------------------------------------------------------------
@@ -463,7 +658,8 @@ def report(chk: Check, conf, writes, legit, item):
         "config": conf_to_json(conf),
         "writes": pairs_src(writes),
         "legit": {k: b.hex() for k, b in legit.items()},
-        "attack": {"class": r["class"], "read_key": r["key"], "blob": r["blob"].hex(), "reader_secret": r["secret"]},
+        "attack": {"class": r["class"], "read_key": r["key"], "blob": r["blob"].hex(), "reader_secret": r["secret"],
+                   "reader_via": r.get("via", conf.via)},
         "observed": {"get": repr(r["get"]), "get_many": repr(r["many"]), "get_match": repr(r["match"]),
                      "unpickler_calls": [p.hex() for p, _, _ in r["loads"]]},
         "replay_cmd": "./check C10 --replay <this file>",
@@ -481,7 +677,12 @@ def corpus_cases():
         c = json.loads(f.read_text())
         a = c["attack"]
         yield (f.name, conf_from_json(c["config"]), pairs_eval(c["writes"]),
-               a if "derive" in a else (a["class"], a["read_key"], bytes.fromhex(a["blob"]), a["reader_secret"]))
+               a if "derive" in a else (a["class"], a["read_key"], bytes.fromhex(a["blob"]), _reader(a, a["reader_secret"])))
+
+
+def _reader(a: dict, secret):
+    """the reader of a corpus / replay attack: its secret text, or (secret text, via) when it is configured another way"""
+    return (secret, a["reader_via"]) if a.get("reader_via") else secret
 
 
 def derive_attack(a, legit, conf):
@@ -505,7 +706,7 @@ def derive_attack(a, legit, conf):
         b2 = lab + b":" + bytes.fromhex(a.get("pre", "")) + hdr[len(lab) + 1:] + bytes.fromhex(a.get("post", "")) + b"_" + payload
     else:
         raise HarnessError(f"unknown corpus derivation {kind}")
-    return (a.get("class", kind), a["read_key"], b2, a.get("reader_secret", conf.secret))
+    return (a.get("class", kind), a["read_key"], b2, _reader(a, a.get("reader_secret", conf.secret)))
 
 
 def run(chk: Check) -> int:
@@ -556,13 +757,20 @@ def run(chk: Check) -> int:
     else:
         structural_scenarios = {3 * b + (b + chk.seed) % 3 for b in range(3)}
     structural_blobs = []
+    corpus_skipped = []
     for origin, conf, writes, attack in scenarios:
         if attack is not None:
+            rd = attack if isinstance(attack, dict) else {}
+            rprobe = S.Conf(conf.pickle_type, rd["reader_secret"], conf.digest, rd.get("reader_via", conf.via)).probe() \
+                if rd.get("reader_secret") else "signed"
+            if conf.probe() != "signed" or rprobe != "signed":
+                corpus_skipped.append(f"{origin}: writer {conf.probe()}, reader {rprobe}")
+                continue
             if isinstance(attack, dict):
                 # symbolic attack: needs the stored forms first
-                legit0, _, _ = run_scenario(conf, writes, chk.rng, False, attacks=[])
+                legit0, _, _ = run_scenario(conf, writes, chk.rng, False, attacks=[], write_log=[])
                 attack = derive_attack(attack, legit0, conf)
-            legit, recs, nbp = run_scenario(conf, writes, chk.rng, chk.thorough, attacks=[attack])
+            legit, recs, nbp = run_scenario(conf, writes, chk.rng, chk.thorough, attacks=[attack], write_log=[])
         else:
             # quick: every offset of every blob, a handful of substitute bytes; thorough: all 255 substitutes
             gi = int(origin.split(":")[1]) if origin.startswith("gen:") else None
@@ -599,6 +807,69 @@ def run(chk: Check) -> int:
                 break
         if found >= 3:
             break
+    # ---- keys / secrets that a lossy conversion would identify (all records judged in one batch of driver calls)
+    swap_cov: dict = {}
+    if found < 3:
+        swaps, probes, key_pairs = swap_scenarios(chk)
+        swap_recs, write_log, ctx_of = [], [], {}
+        for origin, conf, writes, attacks in swaps:
+            wl: list = []
+            legit, recs, nbp = run_scenario(conf, writes, chk.rng, False, attacks=attacks, write_log=wl)
+            write_log.extend(wl)
+            for r in recs:
+                r["ctx"] = (conf, legit, nbp)
+                ctx_of[id(r)] = (origin, conf, writes, legit)
+                distinct.add((r["key"], r["blob"], r["secret"], r["via"]))
+            swap_recs.extend(recs)
+            conf_hist[conf.name()] = conf_hist.get(conf.name(), 0) + len(recs)
+        evaluations += len(swap_recs)
+        sw_stats: dict = {}
+        items = judge(swaps[0][1], {}, swap_recs, ids, sw_stats) if swap_recs else []
+        stats.update({k: stats.get(k, 0) + v for k, v in sw_stats.items()})
+        seen_sig = set()
+        for it in sorted(items, key=lambda it: it[1] != "spec"):
+            r, kind, sig, text = it
+            if (kind, sig, r["class"]) in seen_sig or found >= 3:
+                continue
+            seen_sig.add((kind, sig, r["class"]))
+            origin, conf, writes, legit = ctx_of[id(r)]
+            before = len(chk.violations)
+            report(chk, conf, writes, legit, it)
+            found += len(chk.violations) > before
+        for w, text in check_writes(write_log, ids)[:1]:
+            if found < 3:
+                chk.violation(f"correspondence broken: cashews/serialize.py differs from model Serial on a write: {text}"[:600],
+                              {"config": conf_to_json(w["conf"]), "writes": pairs_src([(w["key"], w["value"])]),
+                               "attack": {"class": "none", "read_key": w["key"], "blob": "", "reader_secret": w["conf"].secret},
+                               "broken": "correspondence Serial model <-> cashews/serialize.py (encode)"},
+                              signature=None, no_input=True)
+                found += 1
+        unusable = {k: v for k, v in probes.items() if v != "signed"}
+        swap_cov = {
+            "confusable_key_pairs": len(key_pairs),
+            "confusable_key_pairs_by_conversion": {w: sum(1 for _, _, x in key_pairs if x == w) for w in sorted({x for _, _, x in key_pairs})},
+            "keys_without_an_encoding_not_writable": sorted({ascii(w["key"]) for w in write_log if w["res"] is not True}),
+            "secret_groups": len(SECRET_GROUPS), "secret_spellings": sum(len(g) for g in SECRET_GROUPS),
+            "swap_scenarios": len(swaps), "swap_attacks": len(swap_recs),
+            "attacks_by_class": {c: sum(1 for r in swap_recs if r["class"] == c) for c in sorted({r["class"] for r in swap_recs})},
+            "secret_probe_not_signing": unusable,
+            "rule": "keys: every pair (k, k') of different key texts such that one of " + str(len(LOSSY)) + " lossy conversions (utf-8 / "
+                    "ascii / latin-1 with the ignore, replace, backslashreplace, xmlcharrefreplace, namereplace, surrogateescape "
+                    "handlers; NFC/NFD/NFKC/NFKD; casefold, lower, strip; a utf-16 round trip; cut at NUL; first 32 / 64 bytes) maps "
+                    "both to the same bytes, k from a list of keys with lone surrogates, combining / compatibility characters, "
+                    "non-BMP characters, blanks, NUL and long keys: both keys are written (a key without a UTF-8 encoding cannot be "
+                    "signed: mirrored by the model, stored=err / macerr:key), each blob is copied under the other key and read "
+                    "through get, get_many, get_match - acceptance of such a copy IS a collision of the real key conversion. "
+                    "secrets: groups of different secret texts that int()/float() parsing or a str() rendering identifies (0042/042/"
+                    "42/42.0, 1e3/1000.0, nan/NaN, Arabic-Indic digits, zeroes) plus controls, configured through the settings url and "
+                    "as str keyword; every configuration is first probed (can it sign?); a blob written under one spelling is read by "
+                    "readers configured with each other spelling (judged) and with the same text given as url / str / bytes (the same "
+                    "secret: model comparison only)",
+        }
+        if unusable:
+            chk.say("NOTE property=C10 not judged: " + str(len(unusable)) + " secret configurations cannot sign on this tree (a "
+                    "numeric-looking secret in the settings url reaches HashSigner as int/float: every write raises TypeError, "
+                    "'secret=0' silently builds an unsigned cache) - see coverage.confusable_texts.secret_probe_not_signing")
     if proof is not None:
         chk.proof_broken(proof, found > 0)
     chk.coverage.update({
@@ -621,6 +892,7 @@ def run(chk: Check) -> int:
                 "foreign blob reaching decode); distinct = distinct (key, blob, reader secret).",
         "samples": samples,
         "corpus_cases": ncorpus,
+        "corpus_cases_skipped_secret_cannot_sign": corpus_skipped,
         "scenarios": len(scenarios),
         "blobs_swept_at_every_offset": exhaustive_blobs,
         "blobs_swept_with_all_255_substitutes_at_every_offset": full_blobs,
@@ -629,6 +901,7 @@ def run(chk: Check) -> int:
         "exhaustive": False,
         "configurations": conf_hist,
         "interesting_states_cases": stats,
+        "confusable_texts": swap_cov,
         "trusted_base": TRUSTED,
         "partial": "the MAC is abstract in the proof (idealised as collision-free for the integrity theorem) and real (stdlib hmac) in the "
                    "sweep; blobs whose digest label was changed are outside C10's quantifier: a reader configured with md5 accepts a blob "
@@ -645,12 +918,15 @@ def replay(chk: Check, path: str) -> int:
     conf = conf_from_json(c["config"])
     writes = pairs_eval(c["writes"])
     a = c["attack"]
+    if conf.probe() != "signed":
+        print(f"replay: the writer's configuration cannot sign on this tree ({conf.probe()}): nothing to judge")
+        return 0
     if "derive" in a:
-        legit0, _, _ = run_scenario(conf, writes, chk.rng, False, attacks=[])
+        legit0, _, _ = run_scenario(conf, writes, chk.rng, False, attacks=[], write_log=[])
         attack = derive_attack(a, legit0, conf)
     else:
-        attack = (a["class"], a["read_key"], bytes.fromhex(a["blob"]), a["reader_secret"])
-    legit, recs, nbp = run_scenario(conf, writes, chk.rng, False, attacks=[attack])
+        attack = (a["class"], a["read_key"], bytes.fromhex(a["blob"]), _reader(a, a["reader_secret"]))
+    legit, recs, nbp = run_scenario(conf, writes, chk.rng, False, attacks=[attack], write_log=[])
     if "legit" in c:
         legit = {k: bytes.fromhex(v) for k, v in c["legit"].items()}
     items = judge(conf, legit, recs, S.Ids(), {}, nbp)
